@@ -160,3 +160,10 @@ func VerifLastPush(s *Server) (uint64, uint64) {
 	}
 	return s.lastPushData.mTrackedTimeSum, s.lastPushData.queueTick
 }
+
+// VerifSetClientMirror overwrites the client's copy of the clocks (to provoke a
+// clock drift on a live connection).
+func VerifSetClientMirror(c *Client, t am.Time, q uint64, m uint32) {
+	c.netMachInt.Lock()
+	c.netMachInt.UpdateClock(t, q, m)
+}
